@@ -96,6 +96,8 @@ Case ==
                   [binds |-> Bindings[b],
                    exprs |-> [q \in 1..Len(Tests(II)) |-> Unparse(Tests(II)[q], Sty)],
                    expect |-> Results(D, II, Bindings[b])]],
+   \* the same tests with NO caller binding (what a context answers after its binding was removed again)
+   nobind |-> Results(D, II, <<>>),
    text2 |-> Ser(Resolve(RenameTree(t, Swap), [k \in 1..Len(Order) |-> Swap[Order[k]]])),
    tree2 |-> Resolve(RenameTree(t, Swap), [k \in 1..Len(Order) |-> Swap[Order[k]]])]
 InvEmit == PrintT(<<"REPLAY", ToJson(Case)>>)
